@@ -181,11 +181,11 @@ pub(crate) fn stub_catch_unwind<F: FnOnce() -> R + std::panic::UnwindSafe, R>(f:
 }
 
 /// kani::stub target for Reader::handle_data_msg: records that (and to which Reader) the DATA
-/// was handed over.  The real body (payload Bytes clone/drop through Bytes' vtable, topic cache
-/// insertion) did not finish within 300 s when entered through the MessageReceiver; what the
-/// Reader does with a DATA is decided on the Reader rig (C01/C03).  The liveness signal under
-/// test is sent by the MessageReceiver itself AFTER this call returns.  Natively the real
-/// Reader::handle_data_msg runs.
+/// was handed over.  What the Reader does with a DATA is decided on the Reader rig (C01/C03).
+/// The liveness signal under test is sent by the MessageReceiver itself AFTER this call returns.
+/// Natively the real Reader::handle_data_msg runs.  (The real body "did not finish within 300 s
+/// when entered through the MessageReceiver" at a time when every DATA looked symbolic to CBMC,
+/// see `writer_body`; it has not been re-measured with the concrete construction.)
 #[cfg(kani)]
 pub(crate) static mut DATA_TO: [EntityId; 2] = [EntityId::UNKNOWN; 2];
 pub(crate) static mut DATA_N: usize = 0;
@@ -200,6 +200,64 @@ pub(crate) fn stub_handle_data_msg(this: &mut Reader, data: Data, _flags: BitFla
     DATA_N += 1;
   }
   core::mem::forget(data);
+}
+
+// ------------------------------------------------------------------ SubmessageBody::Writer(ws) that CBMC can see through
+/// `SubmessageBody::Writer(ws)`.  Natively exactly that.
+///
+/// Under Kani the same value is produced by re-interpreting the bytes of `ws` (and checked, by
+/// assertions, to BE `SubmessageBody::Writer` of the same variant with the same fields).  Why:
+/// rustc niche-encodes both `WriterSubmessage` (tag = a u64 at offset 0, shared with the Vec
+/// capacity niche of DataFrag::inline_qos) and `SubmessageBody` (further values of the same u64;
+/// the Writer variant is the untagged one, so both types have the same size and the Writer payload
+/// sits at offset 0).  Kani turns niche-encoded enums into C unions; CBMC's field sensitivity
+/// reads a union-typed value that occurs INSIDE an expression through its widest member
+/// (DataFrag), and the aggregate assignment Kani emits for the constructor
+/// (`tmp.Writer := { ws }`) is such an expression: every field of the DATA view (the
+/// discriminant word, reader_id, writer_id, writer_sn) is then re-derived by byte_extract from
+/// the DataFrag view across uninitialised (nondet) bytes, which the simplifier cannot fold.  From
+/// there on symbolic execution takes the discriminant and the entity ids of a perfectly concrete
+/// DATA for symbolic: in MessageReceiver::handle_submessage / handle_writer_submessage it then
+/// explores BOTH routing branches, all five arms of `match submessage` (the real
+/// Reader::handle_heartbeat_msg / handle_gap_msg / handle_datafrag_msg ...), all five arms of the
+/// derived WriterSubmessage::clone and drop glue (ParameterList, Bytes vtables), and unrolls
+/// `for target in available_target_entity_ids` up to the unwind bound because the collected
+/// Vec's length depends on the "symbolic" writer id.  That was the > 600 s time-out of every
+/// c12_mr_liveness_* harness.  A whole-object copy between two objects of the same union type is
+/// done field by field and keeps constants, and so does the pointer-cast read below.
+/// (Measured on micro harnesses: constructor -> all inner match arms reachable for symex;
+/// cast-read -> 0 VCCs left after simplification.)
+#[cfg(not(kani))]
+pub(crate) fn writer_body(ws: WriterSubmessage) -> SubmessageBody {
+  SubmessageBody::Writer(ws)
+}
+#[cfg(kani)]
+pub(crate) fn writer_body(ws: WriterSubmessage) -> SubmessageBody {
+  // layout precondition of the re-interpretation (fails loudly, e.g. with the security feature)
+  assert!(
+    core::mem::size_of::<WriterSubmessage>() == core::mem::size_of::<SubmessageBody>(),
+    "harness: SubmessageBody is not niche-encoded in WriterSubmessage any more"
+  );
+  let body: SubmessageBody = unsafe { core::ptr::read(&ws as *const WriterSubmessage as *const SubmessageBody) };
+  // the re-interpreted value IS SubmessageBody::Writer(ws): same variants, same fields
+  match (&body, &ws) {
+    (SubmessageBody::Writer(WriterSubmessage::Data(a, fa)), WriterSubmessage::Data(b, fb)) => {
+      assert!(
+        a.reader_id == b.reader_id && a.writer_id == b.writer_id && a.writer_sn == b.writer_sn && fa == fb,
+        "harness: writer_body changed a DATA"
+      );
+      assert!(
+        a.inline_qos.is_none() && b.inline_qos.is_none() && a.serialized_payload.is_none() && b.serialized_payload.is_none(),
+        "harness: writer_body is for payload-free DATA only"
+      );
+    }
+    (SubmessageBody::Writer(WriterSubmessage::Heartbeat(a, fa)), WriterSubmessage::Heartbeat(b, fb)) => {
+      assert!(a == b && fa == fb, "harness: writer_body changed a HEARTBEAT");
+    }
+    _ => panic!("harness: writer_body: not SubmessageBody::Writer of the same variant (or a variant this file does not feed)"),
+  }
+  core::mem::forget(ws);
+  body
 }
 
 // ------------------------------------------------------------------ rig
@@ -342,9 +400,10 @@ impl MRig {
   }
 
   /// DATA without payload and without inline QoS (flags: endianness only).  Which Reader gets
-  /// it and whether a liveness signal follows does not depend on the payload; a payload-carrying
-  /// DATA (even `Bytes::from_static`) made the Writer arm of handle_submessage intractable
-  /// (clone per target Reader + drop of the original go through Bytes' vtable: > 600 s).
+  /// it and whether a liveness signal follows does not depend on the payload.  (The earlier
+  /// time-outs of the Writer arm of handle_submessage, with or without payload, were caused by
+  /// the way the SubmessageBody was built: see `writer_body`.  A payload-carrying DATA has not
+  /// been re-measured since.)
   pub fn feed_data(&mut self, writer_id: EntityId, reader_id: EntityId, sn: i64) {
     let d = Data {
       reader_id,
@@ -355,7 +414,7 @@ impl MRig {
     };
     self.feed(
       SubmessageKind::DATA,
-      SubmessageBody::Writer(WriterSubmessage::Data(
+      writer_body(WriterSubmessage::Data(
         d,
         BitFlags::<DATA_Flags>::from_flag(DATA_Flags::Endianness),
       )),
@@ -372,7 +431,7 @@ impl MRig {
     };
     self.feed(
       SubmessageKind::HEARTBEAT,
-      SubmessageBody::Writer(WriterSubmessage::Heartbeat(
+      writer_body(WriterSubmessage::Heartbeat(
         hb,
         BitFlags::<HEARTBEAT_Flags>::from_flag(HEARTBEAT_Flags::Endianness),
       )),
